@@ -331,6 +331,8 @@ def run_case(case):
 def recheck(case):
     if case.get("mode") == "large":
         return [("C20/" + s, w) for s, w in run_large(case)]
+    if case.get("mode") == "deep":
+        return [("C20/" + s, w) for s, w in run_deep(case)]
     probs, _ = run_case(case)
     suffix = "/origin-from-$ORIGIN" if case.get("mode") == "textload" and not case.get("origin_given") else ""
     return [("C20/" + s + suffix, w) for s, w in probs]
@@ -441,6 +443,62 @@ def run_large(case):
     return probs
 
 
+def run_deep(case):
+    """Many names beneath ONE name that becomes (and later stops being) a delegation point after
+    they exist, at sizes around which a node of the default-branching-factor B-tree is full: the
+    walk that re-flags the subtree must reach every name whatever the tree does underneath."""
+    n, rel, how = case["n"], case["relativize"], case["how"]
+    z = dns.btreezone.Zone(ORIGIN, relativize=rel)
+    content = {ORIGIN: {"SOA", "NS"}}
+    probs = []
+    qs = [absname(k) for k in ("h0000.sub", "h%04d.sub" % (n // 2), "h%04d.sub" % (n - 1), "sub", "zz", "a0", "x.h0001.sub")]
+
+    def fill(txn):
+        for i in range(n):
+            key = "h%04d.sub" % i
+            txn.add(spelled(key, "rel"), 10, RD["A"])
+            content[absname(key)] = {"A"}
+        for key in case.get("outside", ()):
+            txn.add(spelled(key, "rel"), 10, RD["A"])
+            content[absname(key)] = {"A"}
+
+    with z.writer(True) as txn:
+        txn.add(spelled("@", "rel"), 10, RD["SOA"])
+        txn.add(spelled("@", "rel"), 10, RD["NS"])
+        fill(txn)
+        if how == "same-txn":
+            txn.add(spelled("sub", "rel"), 10, RD["NS"])
+            content[absname("sub")] = {"NS"}
+    probs += version_problems(z._versions[-1], rel, content, qs, "deep/after-fill")
+    if how == "later-txn":
+        with z.writer() as txn:
+            txn.add(spelled("sub", "rel"), 10, RD["NS"])
+        content[absname("sub")] = {"NS"}
+        probs += version_problems(z._versions[-1], rel, content, qs, "deep/after-cut-added")
+    with z.writer() as txn:
+        txn.delete(spelled("sub", "rel"))
+    del content[absname("sub")]
+    probs += version_problems(z._versions[-1], rel, content, qs, "deep/after-cut-removed")
+    return probs
+
+
+def _deep_task(task, col):
+    n, rel = task
+    for how in ("same-txn", "later-txn"):
+        for outside in ((), ("a0", "zz")):
+            case = {"mode": "deep", "n": n, "relativize": rel, "how": how, "outside": list(outside)}
+            try:
+                probs = run_deep(case)
+            except Exception as e:
+                probs = [("deep/" + crash_sig(e), repr(e))]
+            col.count("evaluations")
+            col.count("deep_cases")
+            col.outcome("deep:" + (probs[0][0] if probs else "ok"))
+            col.nontrivial(("deep", n, rel, how, outside))
+            for s, w in probs:
+                col.violation("C20/" + s, w + " [%d names beneath sub, relativize=%s, NS at sub %s, outside %s]" % (n, rel, how, list(outside)), case)
+
+
 def _large_task(task, col):
     n, rel = task
     for add in (["d9999"], ["d0100x"], ["d0100x", "d9999", "a0"]):
@@ -508,4 +566,7 @@ def run(ctx):
     sizes = ctx.pick([127, 253, 254, 380, 381], [126, 127, 128, 252, 253, 254, 255, 380, 381, 382, 507, 508])
     ctx.extra["large_delegation_counts"] = sizes
     ctx.pmap(_large_task, [(n, rel) for n in sizes for rel in (True, False)])
+    deep = ctx.pick([126, 249, 250, 251, 252, 253, 254, 380], list(range(124, 130)) + list(range(247, 258)) + [379, 380, 381, 506, 507])
+    ctx.extra["deep_subtree_sizes"] = deep
+    ctx.pmap(_deep_task, [(n, rel) for n in deep for rel in (True, False)])
     ctx.counts["traces_validated_against_impl"] = ctx.counts.get("evaluations", 0)
